@@ -147,11 +147,21 @@ Definition spec_lit_field (md : nat) (n : lname) : res field :=
     end
   end.
 
+(* The parsed literal is handed on in serialised form: a field without presence that holds its zero value is not
+   on the wire (so a later option statement for it does not find it set). *)
+Definition implicit_zero (fields : list field) (n : N) (v : val) : bool :=
+  match find (fun f => N.eqb (fnum f) n) fields with
+  | Some f => fimplicit f && is_zero_val v
+  | None => false
+  end.
+Definition on_wire (fields : list field) (m : mval) : mval :=
+  filter (fun p => negb (implicit_zero fields (fst p) (snd p))) m.
+
 (* a message literal is parsed like text format: field by field, in order, the first problem rejects it *)
 Definition spec_lit_loop (sv : field -> oval -> res val) (md : nat) : list (lname * oval) -> mval -> res val :=
   fix lit (fs : list (lname * oval)) (m : mval) {struct fs} : res val :=
     match fs with
-    | [] => Ok (VM m)
+    | [] => Ok (VM (on_wire (msg_fields sch md) m))
     | (nm, fv) :: r =>
       match spec_lit_field md nm with
       | Err x => Err x
